@@ -41,6 +41,37 @@ import (
 func init() {
 	groups["relay"] = genC13Relay
 	groups["relay_inner"] = genC13RelayInner
+	groups["relay_tunnel_flag"] = genC13TunnelFlag
+}
+
+// Probe outside the model's scope (not in the C13 group list): a client whose ACT claims
+// tunnel=true through a relay that has no tunnel connector.  handshake() stores
+// tunnelConnected=true, after which addHandshakeBuffer(…, tunnel=false) refuses to park:
+// the server's CFG is forwarded raw, the worker waits for it forever, and client bytes
+// parked before the store stay parked while later bytes are forwarded directly.
+func genC13TunnelFlag(c *ctx) {
+	os.Unsetenv("TMUX")
+	c.sample = []string{}
+	cInR, cInW := io.Pipe()
+	sOutR, sOutW := io.Pipe()
+	cOut, sIn := newC13Sink(), newC13Sink()
+	_ = trzsz.NewTrzszRelay(cInR, cOut, sIn, sOutR, trzsz.TrzszOptions{})
+	sOutW.Write([]byte("::TRZSZ:TRANSFER:R:1.1.5:7700000000100:0\r\n"))
+	cOut.waitFor(func(b []byte) bool { return bytes.Contains(b, []byte("#R")) }, time.Second)
+	act := c13Line("ACT", `{"lang":"x","version":"1.1.5","confirm":true,"newline":"\n","protocol":2,"binary":true,"support_dir":true,"tunnel":true}`)
+	cInW.Write(append(append([]byte(nil), act...), []byte("first\n")...))
+	sIn.waitFor(func(b []byte) bool { return c13CountToks(b, "ACT", map[string]bool{string(act): true}) >= 1 }, time.Second)
+	cfg := c13Line("CFG", `{"timeout":20,"newline":"\n","protocol":2,"bufsize":10485760}`)
+	sOutW.Write(cfg)
+	time.Sleep(50 * time.Millisecond)
+	cInW.Write([]byte("second\n"))
+	time.Sleep(300 * time.Millisecond)
+	s, k := sIn.snapshot(), cOut.snapshot()
+	c.count("tunnel_flag:runs")
+	if !bytes.Contains(s, []byte("first\n")) || bytes.Index(s, []byte("second\n")) < bytes.Index(s, []byte("first\n")) {
+		c.violate("relay-tunnel-flag", "ACT with tunnel=true through a relay without tunnel connector: bytes parked behind the ACT line are never delivered while later bytes are, and the CFG line reaches the client unrewritten",
+			fmt.Sprintf("serverIn got %q | clientOut got %q", s, k))
+	}
 }
 
 // ---- wire helpers ----
